@@ -44,12 +44,15 @@ VerdictEv ==
                    /\ (Ev.fn = "superior_conjunction" => Gt(Abs(Ev.aux), FromInt(90))))
          [] Ev.kind = "elong" ->
               Viol("EVENT_ELONGATION_MAXIMAL", MaxInside(s))
+         \cup Viol("EVENT_ELONGATION_WITHIN_TOL", MaxWithinTol(Ev.dl, Ev.dr))
          \cup Viol("EVENT_ELONGATION_REPORTED", Within(Ev.rep, Max3(s[2], s[3], s[4]), Dec(1, 1)))
          \cup Viol("EVENT_EAST_WEST", (Ev.fn = "eastern_elongation" => Sgn(Ev.aux) = 1) /\ (Ev.fn = "western_elongation" => Sgn(Ev.aux) = -1))
          [] Ev.kind = "station" ->        \* station 1: direct -> retrograde (longitude maximal); station 2: the reverse
               Viol("EVENT_STATIONARY", IF Ev.fn = "station_longitude_1" THEN MaxInside(s) ELSE MinInside(s))
+         \cup Viol("EVENT_STATIONARY_WITHIN_TOL", IF Ev.fn = "station_longitude_1" THEN MaxWithinTol(Ev.dl, Ev.dr) ELSE MinWithinTol(Ev.dl, Ev.dr))
          [] Ev.kind = "radius" ->
               Viol("EVENT_RADIUS_EXTREMAL", IF Ev.v = 1 THEN MinInside(s) ELSE MaxInside(s))
+         \cup Viol("EVENT_RADIUS_WITHIN_TOL", IF Ev.v = 1 THEN MinWithinTol(Ev.dl, Ev.dr) ELSE MaxWithinTol(Ev.dl, Ev.dr))
          [] Ev.kind = "node" ->
               Viol("EVENT_LATITUDE_ZERO", IF Ev.v = 1 THEN RisingAcross(s) ELSE FallingAcross(s))
          \cup Viol("EVENT_LATITUDE_SMALL", Le(Abs(s[3]), Dec(2, 1)))
